@@ -14,6 +14,18 @@ TRUST = ("Trusted base: go/types + go/ssa (x/tools v0.29.0) lowering of /repo's 
 
 # id -> (claimed?, technique, level text, design_ref, not-applicable reason)
 CHECKS = {
+    "C01": dict(
+        technique="gate walk (must-cross-success-edge with predicate facts) + backward dataflow slices on SSA of every shwap verifier and every verifier call site",
+        text="Level 'other': decides, for every verifier found by signature and every path through it, that acceptance is control-dependent on a cryptographic comparison of trusted roots with the response, that every requested-position parameter gates acceptance, that nmt proof ranges are bound to the request (or their absence is justified by it), that no verdict is ignored, and that every external call site passes header-derived roots and request-derived positions. A structural necessary condition for all inputs at once; cryptographic soundness and arithmetic correctness are not decided.",
+        design="DESIGN.md §3 C01"),
+    "C02": dict(
+        technique="gate walk with seeded predicate facts + dataflow slices + callee identity (completeness primitive) on SSA",
+        text="Level 'other': decides that the namespace verifier derives the row set locally from trusted roots, binds count/order/index of the response rows to it, verifies every row inside a fully gated loop, that the accepting gate resolves to nmt's completeness-checking VerifyNamespace (range path: completeness flag constant and forwarded unchanged), and that the four inconsistent shares/proof combinations cannot reach a success return (path-sensitive walk seeded with the combination). NMT soundness and producer equality are not decided.",
+        design="DESIGN.md §3 C02"),
+    "C18": dict(
+        technique="encoder/decoder layout extraction from the typed syntax tree + constant evaluation + interval bound on narrowing conversions + gate walk + panic reachability over the call graph",
+        text="Level 'other': decides, for every ID codec pair, that encoder and decoder agree field by field on order, width and offsets and on the Size constant; that no uintN() conversion in an encoder can truncate a field at the protocol's maximum square size; that decoders return values only behind the exact-length test and a successful Validate; that no explicit panic is reachable from any decoder entry point; that proto converters nil-check. Round-trip equality on values is not decided.",
+        design="DESIGN.md §3 C18"),
     "C19": dict(
         technique="exhaustive static enumeration of the RPC surface + gate (must-cross-success-edge) walk on SSA + call-graph sink reachability",
         text="Level 'other': a for-all statement over the program's RPC surface decided on the type-checked SSA - every registered module method has a permission tag and a pure forwarder; the raw service is registered only with auth disabled; the permissioned proxy, default permission set, auth handler and token gate (signature, decoding, expiry) are wired on every path; and by-effect policy: a method whose implementation can reach tx submission / credential minting / libp2p identity-peers-reconfiguration / log reconfiguration sinks must be tagged at least write/admin. This is the quantifier 'every method of every module' that tests sample; the behaviour of the go-jsonrpc proxy and JWT library is assumed.",
